@@ -202,6 +202,97 @@ def probes(chk, prog):
                 chk.ob("R-ORDER", SEARCH, okk, "an inclusive sub-range is discarded without a probe only when it is empty (end < start)" if okk else
                        "a sub-range is discarded unprobed under %s" % [show(canon_calls(c[0]))[:80] for c in conds[1:]], w, key="skip-only-empty")
     chk.floor("in-loop probes", n_probe, 2)
+    populated_only(chk, prog, co, ls)
+
+
+def probe_index(v):
+    """index i when v is the value obtained from probe f(i): `f(i).await?` (Ok payload of the awaited call), else None"""
+    while v[0] == "call" and len(v[2]) == 1 and (v[1].endswith("::as_ref") or v[1].endswith("::clone")):
+        v = v[2][0]
+    if v[0] == "vfld" and v[2] == "Ok" and v[1][0] == "await" and v[1][1][0] == "call" and "call_mut" in v[1][1][1]:
+        arg = v[1][1][2][1]
+        return arg[1][0] if arg[0] == "tuple" and len(arg[1]) == 1 else arg
+    return None
+
+
+def populated_only(chk, prog, co, ls):
+    """Necessary for 'returns the populated directory ...': the candidate `nearest` only ever takes the index of a directory
+    that the same path has just found populated (its probe returned Some). Decided for every assignment to the candidate:
+    inside each loop (one-iteration closed form) and in the straight-line code that leads from one loop to the next."""
+    nl = [l for l in range(len(co.locals)) if co.local_name(l) == "nearest"]
+    if len(nl) != 1:
+        chk.blind("R-ORDER", SEARCH, "candidate local `nearest` not found (%d locals of that name)" % len(nl))
+        return
+    nl = nl[0]
+    L = P("L%d" % nl)
+    n_assign = 0
+
+    def judge(tree, base, extra_conds, where, tag):
+        nonlocal n_assign
+        try:
+            cells = loops.split_cases({0: tree}, limit=400)
+        except sym.Undecided as e:
+            chk.blind("R-ORDER", SEARCH, "candidate updates could not be enumerated (%s): %s" % (tag, e), where)
+            return
+        for cc, vv in cells:
+            v = vv[0]
+            if v == base or v == NONE or v[0] in ("after_loop", "uninit"):
+                continue
+            n_assign += 1
+            okk = False
+            if v[0] == "adt" and v[2] == "Some":
+                x = v[3][0][1]
+                for c in tuple(extra_conds) + tuple(cc):
+                    pv = None
+                    if len(c) == 3 and c[0][0] == "discr" and c[2] == ((1, 1),):
+                        pv = c[0][1]
+                    elif len(c) == 2 and c[0][0] == "call" and c[0][1].endswith("::is_some") and c[1] is True:
+                        pv = c[0][2][0]
+                    elif len(c) == 2 and c[0][0] == "call" and c[0][1].endswith("::is_none") and c[1] is False:
+                        pv = c[0][2][0]
+                    if pv is not None and probe_index(pv) == x:
+                        okk = True
+            chk.ob("R-ORDER", SEARCH, okk, "the candidate is set to an index only after that index's probe returned a value" if okk else
+                   "the candidate becomes %s without its directory having been found populated on that path (under %s)" % (
+                       show(canon_calls(v))[:80], [show(canon_calls(c[0]))[:60] for c in cc][:4]), where, key="populated-candidate:%s" % tag)
+
+    for lp in ls:
+        if nl in lp["tracked"]:
+            for conds, kind, val in lp["paths"]:
+                if kind == "next" and isinstance(val, dict) and nl in val:
+                    judge(val[nl], L, conds, lp["where"], "loop%d" % lp["head"])
+    # straight-line code leaving each loop towards the next one (or the return): run it on the exit environments
+    heads = sorted(lp["head"] for lp in ls)
+    for lp in ls:
+        later = frozenset(h for h in heads if h > lp["head"] and h not in lp["body"])
+        if not later:
+            continue
+        ev = sym.Evaluator(prog, opaque_local=[R + "search::should_search_right"])
+        ev.summarize_loops = True
+        ev.keep_exit_env = True
+        asg = loops.assigned_in(co, lp["body"])
+        env0 = {l: v for l, v in lp["entry"].items() if l not in asg}
+        try:
+            tree = ev.eval_loop_body(co, lp["head"], lp["body"], tuple(lp["tracked"]), env0)
+        except sym.Undecided as e:
+            chk.blind("R-ORDER", SEARCH, "exit paths of loop %d undecided: %s" % (lp["head"], e), lp["where"])
+            continue
+        for conds, leaf in loops.paths(tree):
+            if not (isinstance(leaf, tuple) and leaf and leaf[0] == "exit" and len(leaf) == 4):
+                continue
+            env = dict(ev.exit_envs[leaf[3][2]])
+            base = env.get(nl, L)
+            ev2 = sym.Evaluator(prog, opaque_local=[R + "search::should_search_right"])
+            ev2.summarize_loops = True
+            try:
+                t2 = ev2._run(co, leaf[1], env, {lp["head"]: 1}, 0, until=later)
+            except sym.Undecided:
+                continue
+            for c2, lf in loops.paths(t2):
+                if isinstance(lf, tuple) and lf and lf[0] == "@join":
+                    e2 = ev2._joins[lf[1]][0]
+                    judge(e2.get(nl, base), base, tuple(conds) + tuple(c2), lp["where"], "after-loop%d" % lp["head"])
+    chk.floor("candidate assignments", n_assign, 1)
 
 
 def is_pair(t, which):
